@@ -9,7 +9,7 @@ import heapq
 import sys
 import threading as _th
 
-from .core import Deadlock, HarnessError, SimAbort, StepCap
+from .core import Deadlock, HarnessError, SimAbort, StepCap, no_progress
 
 _SYNC_MARK = "/httpcore/_sync/"
 _SYNCHRO = "httpcore/_synchronization.py"
@@ -204,7 +204,7 @@ class Sched:
             self.half_mark = (self.world.now, self.world.opcount)
         if self.nsteps > self.step_cap and not self.aborting:
             self.stepcap_hit = True
-            if getattr(self, "half_mark", None) == (self.world.now, self.world.opcount):
+            if no_progress(getattr(self, "half_mark", None), self.world):
                 from .aloop import stack_site
 
                 self.spinning = [(t.name, t.blocked_on if t.state == "B" else "spin@%s" % (
